@@ -2,6 +2,7 @@
 from __future__ import annotations
 
 import itertools
+import os
 
 from mc import e1, refmodel as rm
 from mc.common import HarnessError, flags_config, make_rule_doc
@@ -104,7 +105,47 @@ def build_lsets(h, tier):
     return ls
 
 
+LONG_NS = [8, 16, 33, 64, 100, 129]
+POOL_LONG = [("mov", ["%rax", "%rbx"]), ("push", ["%rax"]), ("movl", ["$0x1", "%eax"]), ("ret", []), ("imul", ["$0x10", "%rax", "%rbx"]),
+             ("mov", ["%rbx", "%rax"]), ("push", ["%r8d"])]
+ITEM_LONG = [{"mov": ["rax", "rbx"]}, {"push": ["rax"]}, "movl", "ret", {"imul": ["0x10", "rax", "rbx"]}, {"mov": ["rbx", "rax"]}, {"push": ["%r8d"]}]
+
+
+def run_long(shard, tier, h, res, known):
+    """A pattern of N items written for a window of N instructions (item j describes instruction j of a periodic sequence),
+    embedded in a listing with 64-bit addresses: found; with instruction j replaced by a near miss: not found, for every j."""
+    from mc.common import fmt_listing
+    jobs = [(n, base) for n in LONG_NS for base in (0x401000, 0xffffffff81000000, 0x7fffffffff00)]
+    for ji in range(shard["lo"], len(jobs), shard["n"]):
+        n, base = jobs[ji]
+        seq = [(k * 3 + k // 7) % len(POOL_LONG) for k in range(n)]
+        pat = [ITEM_LONG[s] for s in seq]
+        for cfg in ((False, False), (True, False)):
+            mop = h.mop(make_rule_doc(pat, flags_config(*cfg)))
+            pre = [("nop", [])] * 3
+            edits = [None] + [(j, "mn") for j in range(n)] + [(j, "op") for j in range(n) if isinstance(pat[j], dict)]
+            for ed in edits:
+                j = None if ed is None else ed[0]
+                insts = pre + [POOL_LONG[s] for s in seq] + pre
+                if ed is not None:
+                    m, o = insts[3 + j]
+                    if ed[1] == "mn":
+                        insts[3 + j] = ("xchg", list(o))            # no item name occurs in 'xchg'
+                    else:
+                        insts[3 + j] = (m, ["%rcx"] + list(o[1:]))  # first operand no longer contains the item's first operand name
+                att = [(f"{base + 4 * i:x}", m, o) for i, (m, o) in enumerate(insts)]
+                path = h.write(f"long_{os.getpid()}.s", fmt_listing(att))
+                res.evaluations += 1
+                res.nontrivial += 1
+                want = [f"{base + 12:x}"] if j is None else []
+                got = h.match(mop, path, only_addr=True)
+                if got != want:
+                    res.fail({"clause": "long-pattern", "family": "long", "n_items": n, "base": hex(base), "edited_position": list(ed) if ed else None, "config": list(cfg),
+                              "expected": want, "observed": got, "size": n}, known)
+
+
 def run_shard(shard, tier, h, res, known):
+    run_long(shard, tier, h, res, known)
     cases = rule_cases(tier)
     lsets = e1.get_lsets(h, tier, build_lsets)
     rules = [e1.RuleCase(fam, pat, lsn, cfgs=e1.CONFIGS, want=("verdict",)) for fam, pat, lsn in cases]
@@ -147,6 +188,12 @@ def controls(h):
 
 
 def replay(case, h):
+    if case.get("family") == "long":
+        r = type("R", (), {"evaluations": 0, "nontrivial": 0, "fails": []})()
+        r.fail = lambda c, k: r.fails.append(c)
+        run_long({"lo": 0, "n": 1}, "quick", h, r, set())
+        hit = [f for f in r.fails if f["n_items"] == case["n_items"] and f["base"] == case["base"] and f["edited_position"] == case["edited_position"]]
+        return bool(hit), str(hit)[:300]
     return e1.replay_case(case, h)
 
 ENGINE = "E1"
